@@ -24,7 +24,7 @@ RULE = (
     "contents {fingerprint 2^(iN+j)3^b, every single-cell array, every 0/1 array for N<=3}; "
     "(b) CorrFunc member subsets x auto/cross -> sample() and from_corrfuncs with {none,ref,unk,both}; "
     "(c) HistData.from_catalog on 2..4 patch catalogs; (d) all sample matrices over {0,1,2} with M*B<=6 "
-    "plus fingerprints; resample_jackknife directly on 2..400 (2000) patches; sampling again after PatchedCounts.set_patch_pair; and the same matrices on top of a common value 1e6 (exact shift invariance, tolerance 1e-8); (e) pipeline with patch k removed from all frames. Oracle: explicit-loop "
+    "plus fingerprints and matrices with one NaN / inf entry in every position; normalised counts with all weight of a bin in one patch (0/0 samples); resample_jackknife directly on 2..400 (2000) patches; sampling again after PatchedCounts.set_patch_pair; and the same matrices on top of a common value 1e6 (exact shift invariance, tolerance 1e-8); (e) pipeline with patch k removed from all frames. Oracle: explicit-loop "
     "leave-one-out recomputation in patch-index order, (N-1)/N sum (x_k-mean)(x_k-mean)^T. Non-trivial: "
     "contents in which a permutation/loss of a patch changes some sample (asserted per case)."
 )
@@ -40,6 +40,8 @@ def cases(tier, seed):
     for B, N, auto in itertools.product((1, 2, 3), Ns, (False, True)):
         for T in ("PatchedCounts", "PatchedSumWeights", "NormalisedCounts"):
             out.append(dict(part="sum", T=T, B=B, N=N, auto=auto, content="fp"))
+        # first bin: catalog 1 has objects (weights, pairs) in patch 0 only - the sample without patch 0 is 0/0
+        out.append(dict(part="sum", T="NormalisedCounts", B=B, N=N, auto=auto, content="fp", single_patch_weights=True))
         # single cells
         if B <= 2:
             for b, i, j in itertools.product(range(B), range(N), range(N)):
@@ -76,6 +78,10 @@ def cases(tier, seed):
                     # order one): the covariance is shift invariant, all inputs are exact in binary
                     out.append(dict(part="cov", M=M, B=B, vals=list(vals), offset=1.0e6))
         out.append(dict(part="cov", M=M, B=B, vals=[C.PRIMES[i] * (1 + i % 3) for i in range(M * B)]))
+        # an undefined realisation (NaN / inf) in one sample of one bin: the formula gives NaN for that bin
+        for pos, bad in itertools.product(range(M * B), ("nan", "inf")):
+            out.append(dict(part="cov", M=M, B=B, vals=[C.PRIMES[i] * (1 + i % 3) for i in range(M * B)],
+                            undefined=[pos, bad]))
     for N in (2, 3, 5, 127, 128, 129, 181, 182, 183, 200, 255, 256, 257, 300, 362, 363, 400) + ((1000, 2000) if tier == "thorough" else ()):
         for B in (1, 3):
             out.append(dict(part="resample", N=N, B=B))
@@ -116,6 +122,8 @@ def run_sum(case):
     T, B, N, auto = case["T"], case["B"], case["N"], case["auto"]
     v = []
     sw1 = C.fp_sumw(B, N, 0)
+    if case.get("single_patch_weights"):
+        sw1[0, 1:] = 0.0  # first bin: all weight of catalog 1 sits in patch 0, sample 0 is 0/0
     sw2 = sw1.copy() if auto else C.fp_sumw(B, N, 7)
     if T == "PatchedCounts":
         counts = build_counts(case)
@@ -129,6 +137,10 @@ def run_sum(case):
         es = ((N - 1) ** 2) / es
     else:
         counts = build_counts(case)
+        if case.get("single_patch_weights"):
+            counts[0, 1:, :] = 0.0
+            if auto:
+                counts[0, :, 1:] = 0.0
         x = C.make_norm(B, N, auto, counts=counts, sw1=sw1, sw2=sw2)
         ed, es = ref.ref_norm_term(counts, sw1, sw2, auto)
     try:
@@ -342,6 +354,8 @@ def run_cov(case):
 
     M, B = case["M"], case["B"]
     small = np.array(case["vals"], dtype=float).reshape(M, B)
+    if "undefined" in case:
+        small.flat[case["undefined"][0]] = dict(nan=np.nan, inf=np.inf)[case["undefined"][1]]
     offset = case.get("offset", 0.0)
     samples = small + offset
     sd = SampledData(C.make_binning(B), samples.mean(axis=0), samples)
@@ -356,7 +370,7 @@ def run_cov(case):
     else:
         if not ref.close(cov, cov.T, rtol=1e-14, atol=1e-15):
             v.append(viol("C03/covariance/asymmetric", "covariance is not symmetric"))
-        if np.linalg.eigvalsh((cov + cov.T) / 2).min() < -1e-12 * max(np.trace(cov), 1e-300):
+        if np.isfinite(cov).all() and np.linalg.eigvalsh((cov + cov.T) / 2).min() < -1e-12 * max(np.trace(cov), 1e-300):
             v.append(viol("C03/covariance/not-psd", "covariance has a negative eigenvalue"))
         if not ref.close(sd.error, np.sqrt(np.diag(ecov)), rtol=rtol, atol=np.sqrt(atol)):
             v.append(viol("C03/error/wrong", "error is not the root of the covariance diagonal"))
